@@ -123,6 +123,7 @@ package metadata
 //@ ensures secOwn: implies(result1 == nil && secCount(*m.Annotations) != 0, isSecOf(*m.Annotations, result0.Security))
 //@ ensures secInherited: implies(result1 == nil && secCount(*m.Annotations) == 0, result0.Security == parentSecurity)
 //@ ensures success: implies(result1 == nil && !annotations.hasAttr(*m.Annotations, "Response"), result0.ResponseSuccessCode == ite(len(m.RetVals) > 1, 200, 204) && result0.ResponseDescription == "")
+//@ ensures errs: implies(result1 == nil, forall(r, 0, len(result0.ErrorResponses), exists(k, 0, len(m.Annotations.attributes), m.Annotations.attributes[k].Name == "ErrorResponse" && int(result0.ErrorResponses[r].HttpStatusCode) == definitions.statusOf(m.Annotations.attributes[k].Value) && result0.ErrorResponses[r].Description == m.Annotations.attributes[k].Description)) && forall(r, 0, len(result0.ErrorResponses), forall(q, 0, r, result0.ErrorResponses[q].HttpStatusCode != result0.ErrorResponses[r].HttpStatusCode)))
 //@ loop 0 invariant 0 <= _n && _n <= len(m.RetVals) && len(responses) == _n && fresh(responses)
 //@ loop 1 invariant 0 <= _n && _n <= len(m.Params) && len(reducedParams) == _n && fresh(reducedParams) && len(responses) == len(m.RetVals)
 //@ func ControllerMeta.Reduce props C01,C13,C14
